@@ -77,11 +77,28 @@ class C04(Prop):
               "network: no open axis, atoms = all atoms, every edge wire bound, glued pairs exactly (ket leg n, bra leg n) resp. (ket leg n, operator input n) and "
               "(operator output n, conjugate ket leg n) (C04_contract_two_ttns_closed, C04_expectation_value_closed, local lemmas C04_all_but_one_axes, C04_bra_to_ket_ignore_axes, ...)"),
         ("F", "as_matrix permutation evens++odds is a permutation of the 2n legs with outputs first, in contraction order; tensordot bookkeeping"),
+        # [ext-C04W]
+        ("F", "completely_contract_tree as a store program (Contr/TensorProd.v): on EVERY wfb store it succeeds, the order is the pre-order, one node (the root) is left "
+              "whose tensor has all atoms, open axes = the nodes' open wires in pre-order, every edge wire bound; as_matrix = that contraction transposed to outputs then "
+              "inputs in contraction order (C04_complete_contraction, C04_as_matrix_is_full_contraction)"),
+        ("F", "tensor_product_expectation_value, general path, for every well-formed one-leg-per-node state and every product on 0..N distinct sites: closed network, each factor "
+              "a fresh atom whose input is the site's (now bound) open wire and whose output is glued to the conjugate copy's open wire; conjugate taken of the ORIGINAL state; "
+              "empty product = scalar_product(); dispatch to the shortcuts (C04_tp_expectation_closed, C04_tp_hyp_closed, C04_tp_expectation_empty, C04_tp_expectation_value_dispatch)"),
+        ("F", "diagrams of the two orthogonality-centre shortcuts (C04_center_norm_diagram, C04_center_single_site_diagram: state leg meets operator axis 1)"),
+        ("O", "semantic bridge over any commutative semiring under the kernel contract `every tensor off the centre is an isometry from its bond toward the centre' "
+              "(iso_atom, a hypothesis on the atom table): removal of one isometry pair (C04_iso_pair_remove), induction from the leaves toward the centre "
+              "(C04_block_delta), value of <psi|psi> = value of the local centre diagram (C04_canonical_norm_is_local) -- for an abstract tree of atoms; the link from "
+              "iso_check / the QR definitions of a store to that contract is not formalised"),
+        ("I", "per explored tp / asmat instance: wfb, tp_hyp (hypotheses of C04_tp_hyp_closed) and the result checkers tp_result_ok / complete_contraction_ok by vm_compute; "
+              "value ties: einsum of the model diagram = tensor_product_expectation_value (general path, dispatch with a forced centre), scalar_product() and "
+              "single_site_operator_expectation_value at a forced centre, as_matrix entrywise (exact on integer tensors / 1e-9)"),
+        # [/ext-C04W]
         ("I", "per explored instance: the hypothesis checkers two_ok / three_ok of those theorems and, as a cross-check, the closed-diagram summary, by vm_compute; "
               "the implementation's number equals the value of that diagram (exact arithmetic on Gaussian-integer tensors)"),
-        ("V", "norm() total on every state, tensor products on 0..N sites, centre shortcuts, gauge independence: dense oracle"),
+        ("V", "norm() total on every state, gauge independence, the shortcuts on canonical states against <psi|O|psi>: dense oracle"),
     ]
-    trusted_base = ["NumPy tensordot/transpose/reshape implement the diagram operations (validated exactly on integer tensors)"]
+    trusted_base = ["NumPy tensordot/transpose/reshape implement the diagram operations (validated exactly on integer tensors)",
+                    "kernel contract of the semantic bridge: each Q factor is an isometry from its bond (validated numerically by C03/C11)"]
 
     def generate(self, ctx, stream, budget_scale=1):
         rng = ctx.rng(stream)
@@ -177,6 +194,24 @@ class C04(Prop):
             if k >= 1:
                 ob["value_single"] = complex(kc.single_site_operator_expectation_value(centre, mats[centre]))
                 ob["dense_single"] = complex(np.vdot(psi, util.dense_tp({centre: mats[centre]}, ids, dims) @ psi))
+            # [ext-C04W] data for the model tie of tensor_product_expectation_value (Contr/TensorProd.v): the factors in
+            # dict order, and the SHORTCUT code paths run on the un-canonicalised state with the centre attribute forced
+            # (what they compute is the local diagram whatever the gauge; the model diagram must have that value)
+            ob["sites"] = list(sites)
+            ob["mats"] = {s_: mats[s_] for s_ in sites}
+            ob["site_dims"] = {s_: dims[s_] for s_ in sites}
+            ob["forced_centre"] = centre
+            fc = copy.deepcopy(ket.ttn)
+            fc.orthogonality_center_id = centre
+            ob["value_forced_norm"] = complex(fc.scalar_product())
+            fc = copy.deepcopy(ket.ttn)
+            fc.orthogonality_center_id = centre
+            ob["value_forced_tp"] = complex(fc.operator_expectation_value(TensorProduct(dict(mats))))
+            ob["forced_op"] = mats[centre] if k >= 1 else nprs.standard_normal((dims[centre], dims[centre])) + 0j
+            fc = copy.deepcopy(ket.ttn)
+            fc.orthogonality_center_id = centre
+            ob["value_forced_single"] = complex(fc.single_site_operator_expectation_value(centre, ob["forced_op"]))
+            # [/ext-C04W]
         elif kind == "norm":
             t = copy.deepcopy(ket.ttn)
             try:
@@ -202,6 +237,11 @@ class C04(Prop):
             ob["asmat_ok"] = bool(m.shape == (rows, rows) and np.allclose(m, ref.reshape(rows, rows)))
             ob["order"] = order
             ob["preorder"] = self._preorder(op.ttn)
+            # [ext-C04W] data for the model tie of completely_contract_tree / as_matrix (Contr/TensorProd.v)
+            ob["oops"] = oops
+            ob["oatoms"] = op.atoms
+            ob["matrix"] = m
+            # [/ext-C04W]
         return ob
 
     @staticmethod
@@ -267,9 +307,104 @@ class C04(Prop):
         out = [None] * len(cases)
         for i, v in zip(idx, vals):
             out[i] = v
+        # [ext-C04W] the model programs of Contr/TensorProd.v on the `tp` and `asmat` cases
+        self._model_ext(ctx, cases, obs, out)
+        # [/ext-C04W]
         return out
 
+    # [ext-C04W] ------------------------------------------------------------------------------------
+    def _model_ext(self, ctx, cases, obs, out):
+        exprs, idx = [], []
+        for i, ob in enumerate(obs):
+            if "exception" in ob or ob["kind"] not in ("tp", "asmat"):
+                continue
+            idm = IdMap()
+            if ob["kind"] == "tp":
+                kl = coq_list([("(" + wmodel.coq_op(o, idm) + ")") for o in ob["kops"]])
+                fl = coq_list([f"({coq_nat(idm(s_))}, [{coq_nat(ob['site_dims'][s_])}; {coq_nat(ob['site_dims'][s_])}])" for s_ in ob["sites"]])
+                exprs.append(f"tp_case {kl} {fl} [{coq_nat(idm(ob['forced_centre']))}] {coq_nat(WOFF)} {coq_nat(AOFF)}")
+            else:
+                ol = coq_list([("(" + wmodel.coq_op(o, idm) + ")") for o in ob["oops"]])
+                exprs.append(f"asmat_case {ol}")
+            idx.append(i)
+        imports = ("From Coq Require Import List Arith. From PTN Require Import TTN.Store TTN.Inv Contr.Blocks Contr.Closed "
+                   "Contr.TensorProd. Import ListNotations.")
+        vals = coq_eval(ctx, imports, exprs, shard=10, scope="nat_scope", timeout=600)
+        for i, v in zip(idx, vals):
+            out[i] = v
+
+    def _compare_ext(self, case, ob, mo):
+        if isinstance(mo, Exception):
+            return f"model evaluation failed: {mo}"
+        idm = IdMap()
+        for o in ob.get("kops" if ob["kind"] == "tp" else "oops"):
+            wmodel.coq_op(o, idm)
+        m1 = wmodel.model_obs_to_py(tuple(mo[:5]), idm)
+        self._closed[0] += 1
+        if mo[-1] is not True:
+            self._closed[2].append(f"seed {case['seed']}: {ob['kind']}: hypothesis / result checker of the universal theorem is not true")
+            return f"{ob['kind']}: the per-instance checker (hypotheses of the universal theorem and the expected diagram) is false"
+        self._closed[1] += 1
+        tol = lambda ref: 1e-9 * max(1.0, abs(ref))
+        if ob["kind"] == "asmat":
+            res = lib_unsome(mo[5])
+            if res is None:
+                return "model: complete_contraction does not go through"
+            axes, atoms, bnd, order = res
+            if [idm.r[k] for k in order] != list(ob["order"]):
+                return f"contraction order: model {[idm.r[k] for k in order]} vs implementation {ob['order']}"
+            t = wmodel.eval_diagram({"atoms": list(atoms), "axes": list(axes)}, m1["atab"], ob["oatoms"])
+            n = len(order)
+            rows = int(np.prod(t.shape[:n])) if n else 1
+            mat = np.asarray(t).reshape(rows, -1)
+            M = np.asarray(ob["matrix"])
+            if mat.shape != M.shape:
+                return f"as_matrix shape {M.shape} vs model {mat.shape}"
+            if case["ints"]:
+                if not np.array_equal(mat, M):
+                    return "as_matrix differs entrywise from the value of the model diagram (exact)"
+            elif not np.allclose(mat, M, rtol=1e-9, atol=1e-9):
+                return "as_matrix differs entrywise from the value of the model diagram"
+            return None
+        # tp
+        gen, atabk, disp, normc, single, (nw, na) = mo[5], mo[6], mo[7], mo[8], mo[9], mo[10]
+        tables = {a: (ob["katoms"][a], ws) for a, ws in m1["atab"].items()}
+        tables.update({a + AOFF: (np.conj(ob["katoms"][a]), [w + WOFF for w in ws]) for a, ws in m1["atab"].items()})
+        ftab = dict(tables)
+        for j, s_ in enumerate(ob["sites"]):
+            ftab[na + j] = (ob["mats"][s_], None)
+        for a, ws in atabk:
+            if a in ftab and ftab[a][1] is None:
+                ftab[a] = (ftab[a][0], list(ws))
+        def val(summ, tab, what, ref):
+            summ = lib_unsome(summ)
+            if summ is None:
+                return f"model: {what} does not go through"
+            axes, atoms, bnd, glue = summ
+            if list(axes):
+                return f"model: {what} leaves open axes {axes}"
+            v = eval_closed((axes, atoms, bnd, glue), tab)
+            if v is not None and abs(v - ref) > tol(ref):
+                return f"{what}: value of the model diagram {v} differs from the implementation's {ref}"
+            return None
+        r = val(gen, ftab, "tensor_product_expectation_value (general path)", ob["value"])
+        if r:
+            return r
+        # the dispatch with the forced centre: general path, or a shortcut (operator atom `na` on wires (nw, nw+1))
+        stab = dict(tables)
+        stab[na] = (ob["forced_op"], [nw, nw + 1])
+        dtab = stab if (len(ob["sites"]) == 1 and ob["sites"][0] == ob["forced_centre"]) else ftab
+        r = (val(disp, dtab, "tensor_product_expectation_value (dispatch, centre recorded)", ob["value_forced_tp"])
+             or val(normc, tables, "scalar_product() at the recorded centre", ob["value_forced_norm"])
+             or val(single, stab, "single_site_operator_expectation_value at the centre", ob["value_forced_single"]))
+        return r
+    # [/ext-C04W] -----------------------------------------------------------------------------------
+
     def compare(self, case, ob, mo):
+        # [ext-C04W]
+        if ob.get("kind") in ("tp", "asmat"):
+            return self._compare_ext(case, ob, mo)
+        # [/ext-C04W]
         i_idm = None
         for i, idm in self._idms.items():
             pass
@@ -360,6 +495,13 @@ class C04(Prop):
 
     def impl_wrapper(self):
         pass
+
+
+def lib_unsome(x):
+    """parsed `option`: ("Some", v) -> v, None -> None"""
+    if isinstance(x, tuple) and x and x[0] == "Some":
+        return x[1] if len(x) == 2 else tuple(x[1:])
+    return x
 
 
 def coq_nat_big(n):
